@@ -15,7 +15,8 @@ RULE = ("random modules of the structural subset rendered to text: expression tr
         "repeated operands of parity gates), blackbox instances with connected / .p() / omitted pins, items shuffled (use before "
         "definition), repeated sub-expressions, nets named like the reader's synthetic names (not_a, and_a_b, mux_o_.., tie_0 ..), "
         "escaped identifiers, comments and white space at token boundaries; a malformed stream (port list / declaration mismatch, "
-        "positional blackbox ports, named primitive ports, unknown module type, output that never appears, double drivers); "
+        "positional blackbox ports, named primitive ports, unknown module type, output that never appears or occurs only as cancelling "
+        "operands of a parity gate (must be rejected with an exception), double drivers); "
         "raw Lark trees of valid and corrupted expression strings. non-trivial = at least two operators or instances; "
         "distinct = hash of the rendered text")
 EXPLANATION = ("transformer model (Lark callback order) proved to build gates that carry the expression's value; grammar table regenerated "
@@ -278,7 +279,13 @@ def gen_module(rng, tier="quick"):
 
 
 MALFORMED = ["port_wire", "port_wire", "port_extra", "port_missing_in", "port_missing_out", "bb_positional", "prim_named", "unknown_module", "output_absent",
-             "double_driver", "driven_input", "not_two_inputs", "bad_pin"]
+             "output_absent", "output_cancelled", "output_cancelled", "double_driver", "driven_input", "not_two_inputs", "bad_pin"]
+
+
+def _xor_self(s):
+    """the expression `s ^ s`"""
+    u = ["AUn", ["UPrim", ["PId", s]]]
+    return ["COr", ["OXor", ["XXor", ["XAnd", u], u]]]
 
 
 def corrupt(rng, m, bbs):
@@ -323,6 +330,15 @@ def corrupt(rng, m, bbs):
     elif kind == "output_absent":
         items.insert(rng.randint(0, len(items)), ["output", ["nowhere"]])
         m["ports"].append("nowhere")
+    elif kind == "output_cancelled":
+        # an output that occurs only as operands of a parity gate that cancel never becomes a node: rejected (KeyError)
+        fo, tgt = rng.choice([("fl_o", "fl_t"), ("dead", "dead_t"), ("oc", "not_oc")])
+        items.insert(rng.randint(0, len(items)), ["output", [fo]])
+        m["ports"].append(fo)
+        if rng.random() < 0.5:
+            items.append(["inst", rng.choice(["xor", "xnor"]), [["gfl", ["pos", [vu.cid(tgt), vu.cid(fo), vu.cid(fo)]]]]])
+        else:
+            items.append(["assign", [[tgt, _xor_self(fo)]]])
     elif kind == "double_driver":
         drv = [it for it in items if it[0] == "assign"]
         if not drv:
